@@ -282,6 +282,37 @@ def handle (j : Json) : M Json := do
       match ast with
       | some a => pure (Json.mkObj [("t", treeJ a.build)])
       | none => pure (Json.mkObj [("t", Json.null)])
+  | "cic_build" => do
+      -- a rule dictionary (Imply.from_cicJE); "mode" = "str" when cmp2prop returns the id strings
+      let d ← fld j "d"
+      let strMode := (← fldStr j "mode") == "str"
+      let comps : Json → M (List String) := fun x => do
+        match fldOpt x "components" with
+        | some l => (← jArr l).toList.mapM (fun c => fldStr c "id")
+        | none => pure []
+      let relAll : Json → M Bool := fun x => do
+        match ← optStr x "relation" with
+        | some r => pure (r == "ALL")
+        | none => pure true
+      let cq ← fld d "consequence"
+      let rt ← match ← fldStr cq "ruleType" with
+        | "REQUIRES_ALL" => pure RuleType.requiresAll
+        | "REQUIRES_ANY" => pure RuleType.requiresAny
+        | "ONE_OR_NONE" => pure RuleType.oneOrNone
+        | "FORBIDS_ALL" => pure RuleType.forbidsAll
+        | "REQUIRES_EXCLUSIVELY" => pure RuleType.requiresExclusively
+        | _ => throw "bad ruleType"
+      let (hasCond, condAll, subs, condId) ← match fldOpt d "condition" with
+        | none => pure (false, true, ([] : List SubCond), (none : Option String))
+        | some c => do
+            let ss ← match fldOpt c "subConditions" with
+              | some l => (← jArr l).toList.mapM (fun sc => do
+                  pure ({ all := ← relAll sc, comps := ← comps sc, id := ← optStr sc "id" } : SubCond))
+              | none => pure []
+            pure (true, ← relAll c, ss, ← optStr c "id")
+      let cic : Cic := { id := ← optStr d "id", ruleType := rt, comps := ← comps cq, consId := ← optStr cq "id",
+                         hasCond := hasCond, condAll := condAll, subs := subs, condId := condId }
+      pure (Json.mkObj [("t", treeJ (cic.toAst strMode).build)])
   | "flatten" => do
       let t ← parseTree (← fld j "t")
       pure (Json.mkObj [("res", Json.arr ((P.flatIB t).map idBndJ).toArray)])
